@@ -99,6 +99,91 @@ def concrete(binary, name, seed, items, tmp, tag):
     return json.load(open(outp)), ""
 
 
+
+# ------------------------------------------------------------------------------------------
+# Kani part (C19): bit-precise bounded model checking of Integer against a sign/magnitude model
+# ------------------------------------------------------------------------------------------
+KANI_DIR = os.path.join(VERIF, "kani", "intprops")
+KANI_QUICK = ["checked_add", "checked_sub", "add_op", "sub_op", "unary", "cmp", "mul_div_small"]
+KANI_THOROUGH = KANI_QUICK + ["checked_mul"]
+REPLAY_BIN = os.path.join(BUILD, "kani-native", "debug", "replay")
+
+
+def kani_native_build():
+    lock = os.path.join(KANI_DIR, "Cargo.lock")
+    if not os.path.exists(lock):
+        shutil.copy("/repo/Cargo.lock", lock)
+    p = subprocess.run(["cargo", "build", "--offline", "-q"], cwd=KANI_DIR, env=dict(ENV, CARGO_TARGET_DIR=os.path.join(BUILD, "kani-native")), stdout=subprocess.PIPE, stderr=subprocess.STDOUT, text=True)
+    return p.returncode == 0, p.stdout[-2000:]
+
+
+def kani_operands(harness, extra_args):
+    """re-run one failing harness with concrete playback and extract the operand bytes"""
+    p = subprocess.run(["cargo", "kani", "--target-dir", os.path.join(BUILD, "kani"), "-Z", "stubbing", "-Z", "concrete-playback", "--concrete-playback=print", "--output-format", "terse", "--harness", harness] + extra_args,
+                       cwd=KANI_DIR, env=ENV, stdout=subprocess.PIPE, stderr=subprocess.STDOUT, text=True, timeout=3000)
+    vecs = re.findall(r"^\s*vec!\[([0-9,\s]*)\],?\s*$", p.stdout, re.M)
+    vals = []
+    for v in vecs:
+        b = [int(x) for x in v.replace(" ", "").split(",") if x != ""]
+        vals.append(int.from_bytes(bytes(b), "little"))
+    return vals
+
+
+def run_kani(tier):
+    """returns (results, violations, inconclusive_notes, wall)"""
+    t0 = time.time()
+    ok, out = kani_native_build()
+    if not ok:
+        return {}, [], ["native replay build failed: " + out], 0.0
+    harnesses = KANI_QUICK if tier == "quick" else KANI_THOROUGH
+    args = ["cargo", "kani", "--target-dir", os.path.join(BUILD, "kani"), "-Z", "stubbing", "-j", "8", "--output-format", "terse"]
+    for h in harnesses:
+        args += ["--harness", h]
+    p = subprocess.run(args, cwd=KANI_DIR, env=ENV, stdout=subprocess.PIPE, stderr=subprocess.STDOUT, text=True, timeout=7200)
+    text = p.stdout
+    results = {}
+    # terse output with -j interleaves; the final summary lists failures by name
+    failed = set(re.findall(r"Verification failed for - proofs::(\w+)", text))
+    m = re.search(r"Complete - (\d+) successfully verified harnesses, (\d+) failures, (\d+) total", text)
+    if not m or int(m.group(3)) != len(harnesses):
+        return {}, [], ["kani did not complete: " + text[-1500:]], time.time() - t0
+    covers = re.findall(r"\*\* (\d+) of (\d+) cover properties satisfied", text)
+    vac = [c for c in covers if c[0] != c[1]]
+    for h in harnesses:
+        results[h] = "failed" if h in failed else "verified"
+    notes = []
+    if vac and not failed:
+        notes.append("a kani::cover! reachability witness was not satisfied (vacuous harness)")
+    violations = []
+    for h in sorted(failed):
+        vals = kani_operands(h, [])
+        ops = None
+        if h == "mul_div_small" and len(vals) >= 4:
+            ops = [vals[0], vals[2], vals[1], vals[3]]
+        elif h == "unary" and len(vals) >= 2:
+            ops = [vals[0], vals[1], 0, 0]
+        elif len(vals) >= 4:
+            ops = vals[:4]
+        repro = None
+        if ops is not None:
+            r = subprocess.run([REPLAY_BIN, h, str(ops[0]), str(ops[1] & 1), str(ops[2]), str(ops[3] & 1)], stdout=subprocess.PIPE, text=True)
+            if r.returncode == 1:
+                repro = {"engine": "kani", "harness": h, "operands": [str(o) for o in ops], "native": r.stdout.strip()}
+        if repro is None:
+            # fall back to the native boundary sweep
+            r = subprocess.run([REPLAY_BIN, "sweep"], stdout=subprocess.PIPE, text=True)
+            hh = "mul_div" if h == "mul_div_small" else h
+            line = next((l for l in r.stdout.splitlines() if l.startswith("FAIL " + hh + " ")), None)
+            if line:
+                mm = re.match(r"FAIL (\w+) a=\((\d+),(\d)\) b=\((\d+),(\d)\): (.*)", line)
+                repro = {"engine": "kani", "harness": h, "operands": [mm.group(2), mm.group(3), mm.group(4), mm.group(5)], "native": "FAIL: " + mm.group(6)}
+        if repro:
+            violations.append(repro)
+        else:
+            notes.append(f"kani harness {h} failed but no counterexample reproduced natively")
+    return results, violations, notes, time.time() - t0
+
+
 def load_known():
     p = os.path.join(VERIF, "known_findings.json")
     if not os.path.exists(p):
@@ -131,6 +216,15 @@ def main():
     if "--replay" in sys.argv:
         f = sys.argv[sys.argv.index("--replay") + 1]
         r = json.load(open(f))
+        if r.get("engine") == "kani":
+            ok, out = kani_native_build()
+            o = r["operands"]
+            pr = subprocess.run([REPLAY_BIN, r["harness"], o[0], o[1], o[2], o[3]], stdout=subprocess.PIPE, text=True)
+            log(pr.stdout.strip())
+            if pr.returncode == 1:
+                log(f"VIOLATION property={prop} replay={f}")
+                sys.exit(1)
+            sys.exit(0)
         res, err = concrete(HX_REAL, r["scenario"], r["seed"], [{"id": 0, "assignment": r["assignment"]}], tmp, "replay")
         if res is None:
             log("INCONCLUSIVE: replay failed to run:", err)
@@ -143,6 +237,11 @@ def main():
         log("replay: obligation holds on the real build for this assignment")
         sys.exit(0)
 
+    kani_future = None
+    kani_pool = None
+    if prop == "C19":
+        kani_pool = cf.ThreadPoolExecutor(max_workers=1)
+        kani_future = kani_pool.submit(run_kani, tier)
     names = scenarios(prop, tier)
     if not names:
         log(f"INCONCLUSIVE: no scenarios for {prop}")
@@ -211,6 +310,20 @@ def main():
             json.dump(entry, open(path, "w"), indent=1)
             violations.append((entry, path))
 
+    kani_results, kani_notes, kani_wall = {}, [], 0.0
+    if kani_future is not None:
+        kani_results, kani_viol, kani_notes, kani_wall = kani_future.result()
+        for h, r in sorted(kani_results.items()):
+            log(f"  kani {h}: {r}")
+        for v in kani_viol:
+            k = match_known(known, prop, "kani." + v["harness"], "kani/" + v["harness"], v["native"])
+            if k:
+                known_hits.append((k, v))
+                continue
+            path = os.path.join(VERIF, "replays", f"{prop}-kani-{v['harness']}.json")
+            json.dump(v, open(path, "w"), indent=1)
+            violations.append(({"scenario": "kani." + v["harness"], "label": "kani/" + v["harness"], "detail": v["native"], "assignment": v["operands"]}, path))
+
     # ---------------- evidence
     tot = lambda k: sum(j[k] for j in results.values())
     by_label = {}
@@ -271,6 +384,16 @@ def main():
             "magnitudes in the top 2^32 of the u128 range are outside the claim (reserved handle zone)",
         ],
     }
+    if kani_future is not None:
+        cov = ev["coverage"]
+        cov["kani_harnesses"] = kani_results
+        cov["kani_wall_s"] = round(kani_wall, 1)
+        cov["kani_notes"] = kani_notes
+        cov["kani_checker_cmd"] = "cargo kani -Z stubbing -j 8 --harness <each> (kani 0.68.0 / CBMC 6.11.0 / cadical), crate /verif/kani/intprops, path dependency on /repo/packages/margined_common"
+        cov["kani_bounds"] = "no loops in the harnesses: no unwinding bound; operands range over all 2^129 (magnitude, sign) representations incl. -0; mul_div_small: 8-bit magnitudes; stubs: <Uint128 as Display>::fmt, <Integer as Display>::fmt -> Ok(())"
+        cov["obligations"] += len(kani_results)
+        cov["discharged"] += sum(1 for r in kani_results.values() if r == "verified")
+        ev["assumptions"].append("Kani/CBMC soundness for the loop-free harnesses; the two Display stubs only affect error-message construction")
     json.dump(ev, open(os.path.join(VERIF, "evidence", f"{prop}.json"), "w"), indent=1)
     shutil.rmtree(tmp, ignore_errors=True)
 
@@ -287,6 +410,10 @@ def main():
         log(f"VIOLATION property={prop} replay={path}")
     if violations:
         sys.exit(1)
+    if kani_notes:
+        for n in kani_notes:
+            log("INCONCLUSIVE:", n)
+        sys.exit(2)
     if failures or mismatches or nonrepro or any("abort" in a or "panic" in a or "diverged" in a for a in aborted):
         for m in mismatches[:5]:
             log("INCONCLUSIVE:", m)
